@@ -8,6 +8,7 @@
 package main
 
 import (
+	"path/filepath"
 	"bytes"
 	"context"
 	"crypto/tls"
@@ -121,9 +122,10 @@ var authModes = []authMode{
 type bundleKind int // 0: one file [A]; 1: two files [A],[B]; 2: one file holding A and B
 
 var bundleNames = []string{"one-file[A]", "two-files[A][B]", "one-file[A+B]",
-	"three-files[clientCA][A-without-final-newline][B]", "two-files[A-without-final-newline][B-without-final-newline]"}
+	"three-files[clientCA][A-without-final-newline][B]", "two-files[A-without-final-newline][B-without-final-newline]",
+	"one-file[A]-reached-through-a-symlinked-directory-and-dot-dot"}
 
-const nBundles = 5
+const nBundles = 6
 
 type srvSpec struct {
 	id   identity
@@ -387,7 +389,7 @@ func (h *harness) runCase(class string, b bundleKind, eps []int, specs []srvSpec
 		certIDs = append(certIDs, core.GN(h.keys.ID(k)))
 	}
 	bundleIDs := []string{core.GN(idCAA)}
-	if b != 0 {
+	if b != 0 && b != 5 {
 		bundleIDs = append(bundleIDs, core.GN(idCAB))
 	}
 	if b == 3 {
@@ -435,7 +437,17 @@ func run(c *core.Ctx) {
 	must(err)
 	fcc, err := casim.WriteFile(dir, "ca-client.pem", h.p.clientCA.PEM)
 	must(err)
-	h.bundles = [][]string{{fa}, {fa, fb}, {fab}, {fcc, fan, fb}, {fan, fbn}}
+	// a configured path the operating system resolves through a symbolic link: <dir>/link -> <dir>/sub/deeper, so
+	// <dir>/link/../ca-x.pem is <dir>/sub/ca-x.pem (CA A); the file <dir>/ca-x.pem (what the path looks like once
+	// "link/.." is cancelled textually) holds a foreign CA
+	must(os.MkdirAll(filepath.Join(dir, "sub", "deeper"), 0o755))
+	must(os.Symlink(filepath.Join(dir, "sub", "deeper"), filepath.Join(dir, "link")))
+	_, err = casim.WriteFile(filepath.Join(dir, "sub"), "ca-x.pem", h.p.caA.PEM)
+	must(err)
+	_, err = casim.WriteFile(dir, "ca-x.pem", h.p.foreign.PEM)
+	must(err)
+	fsym := filepath.Join(dir, "link") + "/../ca-x.pem"
+	h.bundles = [][]string{{fa}, {fa, fb}, {fab}, {fcc, fan, fb}, {fan, fbn}, {fsym}}
 	h.keys, err = casim.NewSSHKeys(len(ips), 0) // server at address i answers with certificate i+1
 	must(err)
 	h.farm, err = casim.NewFarm(ips)
@@ -494,7 +506,9 @@ func run(c *core.Ctx) {
 		runPattern("identity", 0, srvSpec{idByB, 3, 0}, patterns[1]) // CA B is foreign to the one-file bundle
 		runPattern("identity", 1, srvSpec{idByB, 3, 0}, patterns[0])
 		runPattern("identity", 2, srvSpec{idByB, 1, 2}, patterns[0])
-		for _, b := range []bundleKind{3, 4} {
+		runPattern("identity", 5, srvSpec{idByForeign, 3, 1}, patterns[1])
+		runPattern("identity", 5, srvSpec{idByForeign, 3, 1}, patterns[0])
+		for _, b := range []bundleKind{3, 4, 5} {
 			runPattern("identity", b, srvSpec{idByA, 3, 1}, patterns[1])
 			runPattern("identity", b, srvSpec{idByB, 3, 1}, patterns[0])
 			runPattern("identity", b, srvSpec{idByForeign, 3, 1}, patterns[1])
